@@ -330,4 +330,94 @@ theorem acceptSeq_table (b : Backend) (d : Seq) (s : Solver) (cn : Bool) :
   · exact svAccept_table d s cn
   · exact mpsAccept_table d s cn
 
+/-! ## C04 — the Hamiltonian in use over the run (the "interaction matrix changes mid-run" axis) -/
+
+theorem stepKinds_same (k : HamKind) (cs : List Bool) :
+    stepKinds k cs k = List.replicate (cs.length + 1) k := by
+  induction cs with
+  | nil => rfl
+  | cons c cs ih =>
+    simp only [stepKinds, ite_self, ih, List.length_cons]
+    rfl
+
+theorem collapse_replicate (k : HamKind) (n : Nat) : collapse (List.replicate (n + 1) k) = [k] := by
+  induction n with
+  | zero => rfl
+  | succ n ih =>
+    show collapse (k :: k :: List.replicate n k) = [k]
+    simp only [collapse, if_true]
+    exact ih
+
+theorem stepKinds_head (k' : HamKind) (cs : List Bool) (cur : HamKind) :
+    ∃ t, stepKinds k' cs cur = cur :: t := by
+  cases cs with
+  | nil => exact ⟨[], rfl⟩
+  | cons c cs => exact ⟨_, rfl⟩
+
+/-- The sequence of distinct Hamiltonians of a run: one, unless a rebuild produced another kind. -/
+theorem collapse_stepKinds (k k' : HamKind) (cs : List Bool) :
+    collapse (stepKinds k' cs k) = if cs.any id = true ∧ k' ≠ k then [k, k'] else [k] := by
+  by_cases hk : k' = k
+  · subst hk
+    rw [stepKinds_same, collapse_replicate]
+    simp
+  · induction cs with
+    | nil => simp [stepKinds, collapse]
+    | cons c cs ih =>
+      cases c with
+      | true =>
+        simp only [stepKinds, if_true, List.any_cons, id, Bool.true_or, true_and, ne_eq, hk,
+          not_false_eq_true]
+        rw [stepKinds_same]
+        show collapse (k :: k' :: List.replicate cs.length k') = [k, k']
+        have hne : ¬ k = k' := fun h => hk h.symm
+        simp only [collapse, hne, if_false]
+        have := collapse_replicate k' cs.length
+        simpa [List.replicate_succ] using this
+      | false =>
+        simp only [stepKinds, Bool.false_eq_true, if_false, List.any_cons, id, Bool.false_or]
+        obtain ⟨t, ht⟩ := stepKinds_head k' cs k
+        rw [ht] at ih ⊢
+        simp only [collapse, if_true]
+        exact ih
+
+/-- `rebuiltKind` on classes. -/
+def rebuiltKindC (rb : Rebuild) (dc : DimC) (k : HamKind) : HamKind :=
+  match rb with
+  | .passesType => k
+  | .defaultRydberg => (hamKindC .rydberg dc).getD k
+
+theorem rebuiltKind_dimC (rb : Rebuild) (n : Nat) (k : HamKind) :
+    rebuiltKind rb n k = rebuiltKindC rb (dimC n) k := by
+  cases rb
+  · rfl
+  · simp only [rebuiltKind, rebuiltKindC, hamKind_dimC]
+
+/-- The feature table with the extra axis `slm` = "the interaction matrix changes inside the run":
+the outcome with the sequence of distinct Hamiltonians in use. -/
+def runTable (rb : Rebuild) (c : Cell) (slm : Bool) : RunOutcome :=
+  match table c with
+  | .raise e => .raise e
+  | .emulate k =>
+    if slm = true ∧ c.b = .mps ∧ rebuiltKindC rb c.dim k ≠ k then .emulate [k, rebuiltKindC rb c.dim k]
+    else .emulate [k]
+
+/-- **Abstraction lemma with the new axis**: the sequence of distinct Hamiltonians of a run depends
+only on the cell and on whether the interaction matrix changes at all. -/
+theorem acceptRun_table (rb : Rebuild) (b : Backend) (d : Seq) (s : Solver) (cn : Bool)
+    (changes : List Bool) :
+    collapseRun (acceptRun rb .repaired b d s cn changes)
+      = runTable rb (classify b d s cn) (changes.any id) := by
+  unfold acceptRun runTable
+  rw [acceptSeq_table]
+  cases ht : table (classify b d s cn) with
+  | raise e => rfl
+  | emulate k =>
+    cases b with
+    | sv =>
+      simp only [collapseRun, collapse_replicate, classify, reduceCtorEq, false_and, and_false, if_false]
+    | mps =>
+      simp only [collapseRun, collapse_stepKinds, rebuiltKind_dimC, classify, true_and]
+      split_ifs <;> rfl
+
 end EmuVerif.Config
